@@ -137,8 +137,11 @@ def run(ctx):
     gated('full', False, 60 if ctx.quick else nsched)
 
     # (V) free-running goroutines under the race detector, several GOMAXPROCS settings
+    # a cover set of objects (every lint judges on one of them), computed by ANOTHER process: the free-running processes start cold
+    dcov = vlib.drive(ctx, exe, 'cover')
+    cover = os.path.join(dcov, 'cover.json')
     for gmp in ((2, 16) if ctx.quick else (1, 2, 4, 16)):
-        env = {'VERIF_MODE': 'free', 'GOMAXPROCS': str(gmp)}
+        env = {'VERIF_MODE': 'free', 'GOMAXPROCS': str(gmp), 'VERIF_COVER': cover}
 
         def once(k=0, gmp=gmp, env=env):
             d, s = run_mode(ctx, exe_race, 'free-%d-%d' % (gmp, k), env, race=True)
